@@ -450,8 +450,8 @@ func genAddr(thorough bool, bounds map[string]interface{}, cs *sink) {
 		badHybrid, badY,
 		append([]byte{5}, pt.Uncompressed()[1:]...),
 		append([]byte{4}, pt.Compressed()[1:]...),
-		append([]byte{2}, refaddr.Ser32(big.NewInt(5))...),             // x=5 is not on the curve
-		append([]byte{2}, refaddr.Ser32(refaddr.P)...),                 // x = p
+		append([]byte{2}, refaddr.Ser32(big.NewInt(5))...),                              // x=5 is not on the curve
+		append([]byte{2}, refaddr.Ser32(refaddr.P)...),                                  // x = p
 		append([]byte{3}, refaddr.Ser32(new(big.Int).Add(refaddr.P, big.NewInt(1)))...), // x = p+1 (1 is on the curve)
 		append([]byte{2}, make([]byte, 32)...),
 		make([]byte, 33), make([]byte, 65),
